@@ -7,6 +7,9 @@ package main
 
 import (
 	"bytes"
+	"os"
+	"sync"
+	"sync/atomic"
 	"database/sql/driver"
 	"encoding/json"
 	"flag"
@@ -79,6 +82,10 @@ type wrap struct {
 	// when asked later.  nil = reset / render now (types whose values cannot alias anything).
 	fresh func()
 	keep  func() func() interface{}
+	// sql.Scanner entry (nil if the type has none) and the text of a time.Time source in the unit
+	// the adapter counts in (ok=false: outside what that unit can express)
+	scanner  func(v interface{}) error
+	timeText func(t time.Time) (string, bool)
 }
 
 // ------------------------------------------------------------------ JSON adapted wrappers
@@ -94,11 +101,23 @@ func obj(tok []byte) []byte {
 	return append(b, '}')
 }
 
-func unobj(b []byte) []byte {
+// unobj: the member value inside a marshalled holder.  What the encoders under test emit decides
+// the shape, so an unexpected shape is an observation (the round trip is logged as failed).
+func unobj(b []byte) ([]byte, error) {
 	if len(b) < 6 || string(b[:5]) != `{"a":` || b[len(b)-1] != '}' {
-		tr.Fatal("unexpected marshalled holder %q", b)
+		return b, fmt.Errorf("marshalled holder is %q", b)
 	}
-	return b[5 : len(b)-1]
+	return b[5 : len(b)-1], nil
+}
+
+type pholder[T any] struct {
+	A *T `json:"a"`
+}
+
+// pad: the same document with insignificant white space around every token
+func pad(tok []byte) []byte {
+	b := append([]byte(" {\n\t\"a\" :\r\n  "), tok...)
+	return append(b, " \n}\t "...)
 }
 
 func jsonWrap[T any, PT interface {
@@ -122,13 +141,30 @@ func jsonWrap[T any, PT interface {
 		{"iter", func(tok []byte) error { return jsonx.JSONUnmarshal(tok, &h.A) }},
 		{"iterfield", func(tok []byte) error { return jsonx.JSONUnmarshal(obj(tok), h) }},
 		{"fastfield", func(tok []byte) error { return jsonx.JSONFastUnmarshal(obj(tok), h) }},
+		{"jsonpad", func(tok []byte) error { return json.Unmarshal(pad(tok), h) }},
+		{"iterpad", func(tok []byte) error { return jsonx.JSONUnmarshal(pad(tok), h) }},
+		// through a pointer member that already points at the variable (null makes the pointer nil)
+		{"jsonptr", func(tok []byte) error { return json.Unmarshal(obj(tok), &pholder[T]{A: &h.A}) }},
+		{"iterptr", func(tok []byte) error { return jsonx.JSONUnmarshal(obj(tok), &pholder[T]{A: &h.A}) }},
 	}
 	marshalDirect := func(v T) ([]byte, error) {
 		m, ok := interface{}(v).(json.Marshaler)
 		if !ok {
-			tr.Fatal("%s is not a json.Marshaler", ty)
+			return []byte{}, fmt.Errorf("%s is not a json.Marshaler", ty)
 		}
 		return m.MarshalJSON()
+	}
+	// encode with enc, check the shape, decode with dec
+	through := func(enc func() ([]byte, error), dec func(b []byte) error) ([]byte, error) {
+		b, err := enc()
+		if err != nil {
+			return b, err
+		}
+		in, err := unobj(b)
+		if err != nil {
+			return in, err
+		}
+		return in, dec(b)
 	}
 	w.rt = []rtvia{
 		{"direct", func(v g) ([]byte, error) {
@@ -139,25 +175,78 @@ func jsonWrap[T any, PT interface {
 			return b, PT(&h.A).UnmarshalJSON(b)
 		}},
 		{"json", func(v g) ([]byte, error) {
-			b, err := json.Marshal(holder[T]{fromG(v)})
-			if err != nil {
-				return b, err
-			}
-			return unobj(b), json.Unmarshal(b, h)
+			return through(func() ([]byte, error) { return json.Marshal(holder[T]{fromG(v)}) },
+				func(b []byte) error { return json.Unmarshal(b, h) })
 		}},
 		{"iter", func(v g) ([]byte, error) {
-			b, err := jsonx.JSONMarshal(holder[T]{fromG(v)})
-			if err != nil {
-				return b, err
-			}
-			return unobj(b), jsonx.JSONUnmarshal(b, h)
+			return through(func() ([]byte, error) { return jsonx.JSONMarshal(holder[T]{fromG(v)}) },
+				func(b []byte) error { return jsonx.JSONUnmarshal(b, h) })
 		}},
 		{"json2iter", func(v g) ([]byte, error) {
-			b, err := json.Marshal(holder[T]{fromG(v)})
-			if err != nil {
-				return b, err
-			}
-			return unobj(b), jsonx.JSONFastUnmarshal(b, h)
+			return through(func() ([]byte, error) { return json.Marshal(holder[T]{fromG(v)}) },
+				func(b []byte) error { return jsonx.JSONFastUnmarshal(b, h) })
+		}},
+		// value behind a pointer (pointer receiver set), decoded into a nil pointer member
+		{"jsonptr", func(v g) ([]byte, error) {
+			x := fromG(v)
+			return through(func() ([]byte, error) { return json.Marshal(&pholder[T]{A: &x}) },
+				func(b []byte) error {
+					var p pholder[T]
+					if err := json.Unmarshal(b, &p); err != nil {
+						return err
+					}
+					if p.A == nil {
+						return fmt.Errorf("pointer member still nil")
+					}
+					h.A = *p.A
+					return nil
+				})
+		}},
+		{"iterptr", func(v g) ([]byte, error) {
+			x := fromG(v)
+			return through(func() ([]byte, error) { return jsonx.JSONMarshal(&pholder[T]{A: &x}) },
+				func(b []byte) error {
+					var p pholder[T]
+					if err := jsonx.JSONUnmarshal(b, &p); err != nil {
+						return err
+					}
+					if p.A == nil {
+						return fmt.Errorf("pointer member still nil")
+					}
+					h.A = *p.A
+					return nil
+				})
+		}},
+		// not addressable: map element (only the value receiver set is available to the encoder)
+		{"jsonmap", func(v g) ([]byte, error) {
+			return through(func() ([]byte, error) { return json.Marshal(map[string]T{"a": fromG(v)}) },
+				func(b []byte) error {
+					m := map[string]T{}
+					if err := json.Unmarshal(b, &m); err != nil {
+						return err
+					}
+					x, ok := m["a"]
+					if !ok {
+						return fmt.Errorf("member missing")
+					}
+					h.A = x
+					return nil
+				})
+		}},
+		{"itermap", func(v g) ([]byte, error) {
+			return through(func() ([]byte, error) { return jsonx.JSONMarshal(map[string]T{"a": fromG(v)}) },
+				func(b []byte) error {
+					m := map[string]T{}
+					if err := jsonx.JSONUnmarshal(b, &m); err != nil {
+						return err
+					}
+					x, ok := m["a"]
+					if !ok {
+						return fmt.Errorf("member missing")
+					}
+					h.A = x
+					return nil
+				})
 		}},
 	}
 	return w
@@ -348,7 +437,9 @@ func rawWrappers() []*wrap {
 				v := x
 				return func() interface{} { return bytesVal(v) }
 			},
-			val: func() interface{} { return bytesVal(x) }, gval: gB, genv: genBytes,
+			scanner:  func(v interface{}) error { return x.Scan(v) },
+			timeText: func(t time.Time) (string, bool) { return "time", true },
+			val:      func() interface{} { return bytesVal(x) }, gval: gB, genv: genBytes,
 			dec: []via{
 				{"scanstring", func(t []byte) error { return x.Scan(string(t)) }},
 				{"scanbytes", func(t []byte) error { return x.Scan(t) }}, // t is the harness's driver buffer
@@ -399,6 +490,13 @@ func rawWrappers() []*wrap {
 	{
 		var x tex.UnixNano2Time
 		ws = append(ws, &wrap{ty: "scannano", kind: "scan", reset: func() { x = tex.UnixNano2Time(time.Unix(0, 7777)) },
+			scanner: func(v interface{}) error { return x.Scan(v) },
+			timeText: func(t time.Time) (string, bool) {
+				if t.Year() < 1700 || t.Year() > 2250 {
+					return "", false
+				}
+				return strconv.FormatInt(t.UnixNano(), 10), true
+			},
 			val: func() interface{} { return valI(time.Time(x).UnixNano(), 10) }, gval: gI, genv: genI64,
 			dec: scanKinds(func(v interface{}) error { return x.Scan(v) }),
 			rt: []rtvia{{"sql", func(v g) ([]byte, error) {
@@ -412,6 +510,7 @@ func rawWrappers() []*wrap {
 	{
 		var x tex.Unix2Time
 		ws = append(ws, &wrap{ty: "scanunix", kind: "scan", reset: func() { x = tex.Unix2Time(time.Unix(7777, 0)) },
+			scanner: func(v interface{}) error { return x.Scan(v) }, timeText: func(t time.Time) (string, bool) { return strconv.FormatInt(t.Unix(), 10), true },
 			val: func() interface{} { return valI(time.Time(x).Unix(), 10) }, gval: gI, genv: genI64,
 			dec: scanKinds(func(v interface{}) error { return x.Scan(v) }),
 			rt: []rtvia{{"sql", func(v g) ([]byte, error) {
@@ -426,6 +525,7 @@ func rawWrappers() []*wrap {
 	{
 		var x tex.UnixStamp
 		ws = append(ws, &wrap{ty: "sqlstamp", kind: "none", reset: func() { x = 7777 },
+			scanner: func(v interface{}) error { return x.Scan(v) }, timeText: func(t time.Time) (string, bool) { return strconv.FormatInt(t.Unix(), 10), true },
 			val: func() interface{} { return valI(int64(x), 10) }, gval: gI, genv: genI64,
 			rt: []rtvia{{"sql", func(v g) ([]byte, error) {
 				dv, err := tex.UnixStamp(v.i).Value()
@@ -438,6 +538,7 @@ func rawWrappers() []*wrap {
 	{
 		var x tex.SQLTime2Unix
 		ws = append(ws, &wrap{ty: "sqltime", kind: "none", reset: func() { x = 7777 },
+			scanner: func(v interface{}) error { return x.Scan(v) }, timeText: func(t time.Time) (string, bool) { return strconv.FormatInt(t.Unix(), 10), true },
 			val: func() interface{} { return valI(int64(x), 10) }, gval: gI, genv: genI64,
 			rt: []rtvia{{"sql", func(v g) ([]byte, error) {
 				dv, err := tex.SQLTime2Unix(v.i).Value()
@@ -548,9 +649,67 @@ func scalarToken(t []byte) bool {
 		return false
 	}
 	if t[0] == '"' {
-		return len(t) >= 2 && t[len(t)-1] == '"' && plain(string(t[1:len(t)-1]))
+		// escapes allowed (the decoders get the raw token); surrogate escapes are not judged, not made
+		return len(t) >= 2 && t[len(t)-1] == '"' && utf8.Valid(t) && json.Valid(t)
 	}
 	return json.Valid(t)
+}
+
+// escaped: the same string content written with JSON escapes, sometimes with one more escaped
+// character at an end or inside
+func escaped(r *rand.Rand, content string) string {
+	var b strings.Builder
+	for _, c := range content {
+		switch k := r.Intn(10); {
+		case k < 3 && c < 0xd800:
+			if r.Intn(2) == 0 {
+				fmt.Fprintf(&b, `\u%04x`, c)
+			} else {
+				fmt.Fprintf(&b, `\u%04X`, c)
+			}
+		case c == '/' && k < 6:
+			b.WriteString(`\/`)
+		default:
+			b.WriteRune(c)
+		}
+	}
+	s := b.String()
+	if r.Intn(3) == 0 {
+		ins := pick(r, `\n`, `\t`, `\r`, `\f`, `\b`, `\"`, `\\`, `\u0020`, `\u00b5s`, `\u0661`, `\u0000`, `\u000a`)
+		switch r.Intn(3) {
+		case 0:
+			s = ins + s
+		case 1:
+			s += ins
+		default:
+			p := r.Intn(len(content) + 1)
+			s = escaped(r, content[:p]) + ins + content[p:]
+		}
+	}
+	return s
+}
+
+var escFixed = []string{`"\u0031\u0032"`, `"1\u0032"`, `"\u002d5"`, `"\u002B5"`, `"1\/2"`, `"1\u002f2"`, `"\t12"`, `"12\n"`, `"\u002012"`,
+	`"\"12\""`, `"\\12"`, `"12\\"`, `"1\u00b5s"`, `"1\u00B5s"`, `"1\u03bcs"`, `"\u0661\u0662"`, `"\u0031h"`, `"1\u0068"`,
+	`"2\u00355"`, `"25\u0036"`, `"\u0030"`, `"\u0000"`, `"1\u00002"`, `"\b1"`, `"\/"`, `"\u0022"`}
+
+// escTokens: escaped spellings of a sample of the quoted tokens
+func escTokens(r *rand.Rand, toks [][]byte, n int) [][]byte {
+	var out [][]byte
+	for _, s := range escFixed {
+		out = append(out, []byte(s))
+	}
+	for tries := 0; len(out) < n+len(escFixed) && tries < 20*n; tries++ {
+		t := toks[r.Intn(len(toks))]
+		if len(t) < 3 || t[0] != '"' || !plain(string(t[1:len(t)-1])) {
+			continue
+		}
+		e := quote(escaped(r, string(t[1:len(t)-1])))
+		if scalarToken(e) {
+			out = append(out, e)
+		}
+	}
+	return out
 }
 
 func withJunk(r *rand.Rand, s string) string {
@@ -936,9 +1095,46 @@ type runner struct {
 	rts    int
 	traces int
 	pool   [][]byte // private copies of wire forms the encoders produced (texts that decode)
+	// cold-start rounds run several runners at once: events are collected and written afterwards
+	buffered bool
+	buf      []tr.E
+}
+
+func (x *runner) emit(e tr.E) {
+	if x.buffered {
+		x.buf = append(x.buf, e)
+		return
+	}
+	x.w.Emit(e)
+}
+
+// progress of the calls into the code under test, for the watchdog
+var inCalls, lastDone atomic.Int64
+
+// watchdog: a call into neptune that does not come back is an observation (a `hang` event the
+// trace spec cannot explain), not a harness timeout.
+func watchdog(w *tr.W, limit time.Duration) {
+	lastDone.Store(time.Now().UnixNano())
+	go func() {
+		for {
+			time.Sleep(500 * time.Millisecond)
+			if inCalls.Load() > 0 && time.Since(time.Unix(0, lastDone.Load())) > limit {
+				w.Emit(tr.E{"ev": "reset", "ty": "hang", "cur": valI(0, 10)})
+				w.Emit(tr.E{"ev": "hang", "calls": int(inCalls.Load())})
+				w.Close()
+				fmt.Println("a call into the code under test did not return")
+				os.Exit(0)
+			}
+		}
+	}()
 }
 
 func call(f func() error) (out string) {
+	inCalls.Add(1)
+	defer func() {
+		lastDone.Store(time.Now().UnixNano())
+		inCalls.Add(-1)
+	}()
 	defer func() {
 		if p := recover(); p != nil {
 			s := fmt.Sprint(p)
@@ -956,7 +1152,7 @@ func call(f func() error) (out string) {
 
 func (x *runner) begin() {
 	x.wr.reset()
-	x.w.Emit(tr.E{"ev": "reset", "ty": x.wr.ty, "cur": x.wr.val()})
+	x.emit(tr.E{"ev": "reset", "ty": x.wr.ty, "cur": x.wr.val()})
 	x.n = 0
 	x.traces++
 }
@@ -974,9 +1170,68 @@ func (x *runner) dec(v via, tok []byte) {
 	x.step()
 	in := append(make([]byte, 0, len(tok)), tok...)
 	out := call(func() error { return v.f(in) })
-	x.w.Emit(tr.E{"ev": "dec", "via": v.name, "tok": tr.Ints(tok), "out": out, "v": x.wr.val(),
+	x.emit(tr.E{"ev": "dec", "via": v.name, "tok": tr.Ints(tok), "out": out, "v": x.wr.val(),
 		"inmut": !bytes.Equal(in, tok), "keep": false})
 	x.decs++
+}
+
+// scanAny: the sql.Scanner entry is handed every kind of source value database/sql can produce
+// (int64, float64, bool, []byte, string, time.Time, nil), each logged with its text.
+func (x *runner) scanAny(rng *rand.Rand, n int) {
+	type src struct {
+		kind string
+		v    interface{}
+		tok  string
+	}
+	var srcs []src
+	ints := []int64{0, 1, -1, 7777, 1700000000, 1700000000123456789, math.MaxInt64, math.MinInt64}
+	floats := []float64{0, 1, -1, 1.5, 0.5, -2.5e9, 1e18, 1e19, 9007199254740993, 1700000000, math.Copysign(0, -1),
+		math.NaN(), math.Inf(1), math.Inf(-1), 1e-9, 123456789.000001}
+	texts := []string{"123", "", " 12", "-5", "1.5", "abc", "1e3", "QUJD", "QQ", "QR", "Q", "2023-01-01 00:00:00",
+		"9223372036854775808", "1700000000", "0", "true", "null", "7777"}
+	times := []time.Time{time.Unix(0, 0), time.Unix(7777, 0), time.Unix(1700000000, 123456789), time.Unix(-1, 0),
+		time.Unix(-1, 999), {}, time.Unix(1<<40, 0), time.Unix(86400, 5).In(time.FixedZone("x", 3*3600)),
+		time.Date(2262, 4, 11, 23, 47, 16, 854775807, time.UTC), time.Date(1969, 12, 31, 23, 59, 59, 999999999, time.UTC)}
+	for i := 0; i < n; i++ {
+		ints = append(ints, genI64(rng).i)
+		floats = append(floats, float64(genI64(rng).i>>uint(rng.Intn(40))), float64(rng.Intn(100000))/8)
+		times = append(times, time.Unix(rng.Int63n(1<<33)-(1<<31), rng.Int63n(1e9)))
+		if len(x.pool) > 0 {
+			texts = append(texts, string(x.pool[rng.Intn(len(x.pool))]))
+		}
+		texts = append(texts, strconv.FormatInt(genI64(rng).i, 10))
+	}
+	for _, v := range ints {
+		srcs = append(srcs, src{"int64", v, strconv.FormatInt(v, 10)})
+	}
+	for _, v := range floats {
+		srcs = append(srcs, src{"float64", v, strconv.FormatFloat(v, 'f', -1, 64)})
+	}
+	srcs = append(srcs, src{"bool", true, "true"}, src{"bool", false, "false"}, src{"nil", nil, "null"})
+	for _, v := range texts {
+		srcs = append(srcs, src{"string", v, v}, src{"bytes", nil, v})
+	}
+	for _, v := range times {
+		if t, ok := x.wr.timeText(v); ok {
+			srcs = append(srcs, src{"time", v, t})
+		}
+	}
+	rng.Shuffle(len(srcs), func(i, j int) { srcs[i], srcs[j] = srcs[j], srcs[i] })
+	for _, c := range srcs {
+		x.step()
+		inmut := false
+		var out string
+		if c.kind == "bytes" {
+			in := append(make([]byte, 0, len(c.tok)), c.tok...)
+			out = call(func() error { return x.wr.scanner(in) })
+			inmut = string(in) != c.tok
+		} else {
+			v := c.v
+			out = call(func() error { return x.wr.scanner(v) })
+		}
+		x.emit(tr.E{"ev": "scan", "kind": c.kind, "tok": tr.Str(c.tok), "out": out, "v": x.wr.val(), "inmut": inmut})
+		x.decs++
+	}
 }
 
 func (x *runner) freshDest() {
@@ -985,7 +1240,7 @@ func (x *runner) freshDest() {
 	} else {
 		x.wr.reset()
 	}
-	x.w.Emit(tr.E{"ev": "fresh", "cur": x.wr.val()})
+	x.emit(tr.E{"ev": "fresh", "cur": x.wr.val()})
 }
 
 func (x *runner) keepNow() func() interface{} {
@@ -1022,7 +1277,7 @@ func (x *runner) rows(rng *rand.Rand, texts [][]byte, nrows int) {
 			if enc == nil {
 				enc = []byte{}
 			}
-			x.w.Emit(tr.E{"ev": "rt", "via": rv.name, "v": x.wr.gval(val), "enc": tr.Ints(enc), "out": out,
+			x.emit(tr.E{"ev": "rt", "via": rv.name, "v": x.wr.gval(val), "enc": tr.Ints(enc), "out": out,
 				"back": x.wr.val(), "keep": true})
 			x.rts++
 			e := enc
@@ -1040,7 +1295,7 @@ func (x *runner) rows(rng *rand.Rand, texts [][]byte, nrows int) {
 		src := in
 		out := call(func() error { return v.f(src) })
 		ok := out == "ok"
-		x.w.Emit(tr.E{"ev": "dec", "via": v.name, "tok": tr.Ints(text), "out": out, "v": x.wr.val(),
+		x.emit(tr.E{"ev": "dec", "via": v.name, "tok": tr.Ints(text), "out": out, "v": x.wr.val(),
 			"inmut": !bytes.Equal(in, text), "keep": ok})
 		x.decs++
 		if ok {
@@ -1051,7 +1306,7 @@ func (x *runner) rows(rng *rand.Rand, texts [][]byte, nrows int) {
 	for i, k := range kept {
 		vals[i] = k()
 	}
-	x.w.Emit(tr.E{"ev": "final", "vals": vals})
+	x.emit(tr.E{"ev": "final", "vals": vals})
 	x.n = x.maxLen
 }
 
@@ -1067,7 +1322,7 @@ func (x *runner) roundTrip(v rtvia, val g) {
 	if enc == nil {
 		enc = []byte{}
 	}
-	x.w.Emit(tr.E{"ev": "rt", "via": v.name, "v": x.wr.gval(val), "enc": tr.Ints(enc), "out": out, "back": x.wr.val(),
+	x.emit(tr.E{"ev": "rt", "via": v.name, "v": x.wr.gval(val), "enc": tr.Ints(enc), "out": out, "back": x.wr.val(),
 		"keep": false})
 	x.rts++
 	if out == "ok" && len(x.pool) < 400 {
@@ -1079,6 +1334,123 @@ func (x *runner) roundTrip(v rtvia, val g) {
 	}
 }
 
+// genTokens: boundary + seeded texts for a token family, and the small-scope exhaustive set
+func genTokens(kind string, rng *rand.Rand, ntok, elen int) (toks, exh [][]byte) {
+	all := func([]byte) bool { return true }
+	switch kind {
+	case "dec":
+		toks = decTokens(rng, ntok)
+		exh = enumerate("\"-012.e ", elen+1, scalarToken)
+	case "dur":
+		toks = durTokens(rng, ntok, true)
+		exh = enumerate("\"-10.hms", elen+2, scalarToken)
+	case "list":
+		toks = listTokens(rng, ntok)
+		exh = enumerate("\"-/0256", elen+2, scalarToken)
+	case "hex16":
+		toks = radTokens(rng, ntok, 16)
+		exh = enumerate("-+0f9xG", elen, all)
+	case "hex32":
+		toks = radTokens(rng, ntok, 32)
+		exh = enumerate("-+0v9wG", elen, all)
+	case "b64":
+		toks = b64Tokens(rng, ntok)
+		exh = enumerate("QR/w=-\n", elen, all)
+	case "rawlist":
+		for _, t := range listTokens(rng, ntok) {
+			if t[0] == '"' {
+				toks = append(toks, t[1:len(t)-1])
+			}
+		}
+		exh = enumerate("-/0256 ", elen, all)
+	case "rawdur":
+		toks = durTokens(rng, ntok, false)
+		exh = enumerate("-10.hms", elen, all)
+	}
+	return
+}
+
+// extremes of the value domain of a wrapper (round trips start with these)
+func extremes(wr *wrap) []g {
+	var vals []g
+	switch wr.gval(g{}).(type) {
+	case []int:
+		vals = []g{{b: nil}, {b: []byte{}}, {b: []byte{0}}, {b: []byte{255}}, {b: []byte{0, 0}}, {b: []byte{1, 2, 3}}, {b: []byte{255, 0, 128, 127}}}
+		all := make([]byte, 300)
+		for i := range all {
+			all[i] = byte(i)
+		}
+		vals = append(vals, g{b: all[:256]}, g{b: all})
+	default:
+		for _, i := range []int64{0, 1, -1, math.MaxInt64, math.MinInt64, math.MaxInt64 - 1, math.MinInt64 + 1, math.MaxInt32, math.MinInt32,
+			1e9, -1e9, 1500000000, -1500000000, 3600e9, -3600e9, 1e6, 1001, 999999999, -999999999, 60e9 + 1,
+			-62135596800 /* the zero time.Time in seconds */} {
+			vals = append(vals, g{i: i, u: uint64(i)})
+		}
+		vals = append(vals, g{i: -1, u: math.MaxUint64}, g{i: math.MinInt64, u: 1 << 63})
+	}
+	return vals
+}
+
+// coldRound: the very first use of the package in this process is made by several goroutines at
+// once (released together by a spin barrier), each with its own set of wrapper variables.  The
+// wrappers share nothing a caller can see, so every goroutine's history must be explained on its
+// own; events are collected per goroutine and written afterwards.
+func coldRound(w *tr.W, seed int64, workers int) {
+	var gate atomic.Int32
+	var wg sync.WaitGroup
+	runs := make([][]*runner, workers)
+	for i := 0; i < workers; i++ {
+		ws := wrappers()
+		for _, wr := range ws {
+			runs[i] = append(runs[i], &runner{w: w, wr: wr, maxLen: 120, buffered: true})
+		}
+		wg.Add(1)
+		go func(i int) {
+			defer wg.Done()
+			rng := rand.New(rand.NewSource(seed*131 + int64(i)))
+			type job struct {
+				toks [][]byte
+				vals []g
+			}
+			jobs := make([]job, len(runs[i]))
+			for k, x := range runs[i] { // inputs are made before the barrier, without touching tex
+				toks, _ := genTokens(x.wr.kind, rng, 4, 0)
+				rng.Shuffle(len(toks), func(a, b int) { toks[a], toks[b] = toks[b], toks[a] })
+				if len(toks) > 10 {
+					toks = toks[:10]
+				}
+				vals := extremes(x.wr)
+				rng.Shuffle(len(vals), func(a, b int) { vals[a], vals[b] = vals[b], vals[a] })
+				vals = append(vals[:3:3], x.wr.genv(rng), x.wr.genv(rng))
+				jobs[k] = job{toks, vals}
+			}
+			gate.Add(1)
+			for gate.Load() < int32(workers) {
+			}
+			for k, x := range runs[i] {
+				x.begin()
+				for j, v := range jobs[k].vals {
+					x.roundTrip(x.wr.rt[(i+j)%len(x.wr.rt)], v)
+				}
+				if x.wr.kind != "scan" && len(x.wr.dec) > 0 {
+					for j, t := range jobs[k].toks {
+						x.dec(x.wr.dec[(i+j)%len(x.wr.dec)], t)
+					}
+				}
+			}
+		}(i)
+	}
+	wg.Wait()
+	for i := range runs {
+		for _, x := range runs[i] {
+			for _, e := range x.buf {
+				w.Emit(e)
+			}
+		}
+	}
+}
+
 func main() {
 	out := flag.String("out", "c20.ndjson", "trace file")
 	seed := flag.Int64("seed", 1, "seed")
@@ -1086,45 +1458,26 @@ func main() {
 	nval := flag.Int("vals", 150, "random values per wrapper for round trips")
 	elen := flag.Int("elen", 4, "exhaustive part: all tokens up to this length over the small alphabets")
 	nrows := flag.Int("rows", 12, "driver-style histories per wrapper (one reused buffer, results kept as returned)")
+	cold := flag.Int("cold", 4, "goroutines of the cold-start round that opens the run (0 = none)")
+	coldOnly := flag.Bool("coldonly", false, "only the cold-start round")
 	flag.Parse()
 	rng := rand.New(rand.NewSource(*seed))
 	w := tr.Create(*out)
+	watchdog(w, 20*time.Second)
+	if *cold > 0 {
+		coldRound(w, *seed, *cold)
+	}
+	if *coldOnly {
+		w.Close()
+		fmt.Printf("events=%d\n", w.N())
+		return
+	}
 	total := map[string]int{}
 	for _, wr := range wrappers() {
 		x := &runner{w: w, wr: wr, maxLen: 120}
 		x.begin()
-		var toks [][]byte
-		var exh [][]byte
-		switch wr.kind {
-		case "dec":
-			toks = decTokens(rng, *ntok)
-			exh = enumerate("\"-012.e ", *elen+1, scalarToken)
-		case "dur":
-			toks = durTokens(rng, *ntok, true)
-			exh = enumerate("\"-10.hms", *elen+2, scalarToken)
-		case "list":
-			toks = listTokens(rng, *ntok)
-			exh = enumerate("\"-/0256", *elen+2, scalarToken)
-		case "hex16":
-			toks = radTokens(rng, *ntok, 16)
-			exh = enumerate("-+0f9xG", *elen, func([]byte) bool { return true })
-		case "hex32":
-			toks = radTokens(rng, *ntok, 32)
-			exh = enumerate("-+0v9wG", *elen, func([]byte) bool { return true })
-		case "b64":
-			toks = b64Tokens(rng, *ntok)
-			exh = enumerate("QR/w=-\n", *elen, func([]byte) bool { return true })
-		case "rawlist":
-			for _, t := range listTokens(rng, *ntok) {
-				if t[0] == '"' {
-					toks = append(toks, t[1:len(t)-1])
-				}
-			}
-			exh = enumerate("-/0256 ", *elen, func([]byte) bool { return true })
-		case "rawdur":
-			toks = durTokens(rng, *ntok, false)
-			exh = enumerate("-10.hms", *elen, func([]byte) bool { return true })
-		case "scan":
+		toks, exh := genTokens(wr.kind, rng, *ntok, *elen)
+		if wr.kind == "scan" {
 			m := scanTokens(rng, *ntok/3+10)
 			for _, v := range wr.dec {
 				for _, t := range m[v.name] {
@@ -1145,34 +1498,34 @@ func main() {
 		for i, t := range exh {
 			x.dec(wr.dec[i%len(wr.dec)], t)
 		}
-		// round trips: extremes first, then seeded values
-		var vals []g
-		switch wr.gval(g{}).(type) {
-		case []int:
-			vals = []g{{b: []byte{}}, {b: []byte{0}}, {b: []byte{255}}, {b: []byte{0, 0}}, {b: []byte{1, 2, 3}}, {b: []byte{255, 0, 128, 127}}}
-			all := make([]byte, 256)
-			for i := range all {
-				all[i] = byte(i)
+		if wr.kind == "dec" || wr.kind == "dur" || wr.kind == "list" { // escaped spellings of string tokens
+			for i, t := range escTokens(rng, toks, *ntok/6+10) {
+				if i < len(escFixed) {
+					for _, v := range wr.dec {
+						x.dec(v, t)
+					}
+				} else {
+					x.dec(wr.dec[rng.Intn(len(wr.dec))], t)
+				}
 			}
-			vals = append(vals, g{b: all})
-		default:
-			for _, i := range []int64{0, 1, -1, math.MaxInt64, math.MinInt64, math.MaxInt64 - 1, math.MinInt64 + 1, math.MaxInt32, math.MinInt32,
-				1e9, -1e9, 1500000000, -1500000000, 3600e9, -3600e9, 1e6, 1001, 999999999, -999999999, 60e9 + 1} {
-				vals = append(vals, g{i: i, u: uint64(i)})
-			}
-			vals = append(vals, g{i: -1, u: math.MaxUint64}, g{i: math.MinInt64, u: 1 << 63})
 		}
+		// round trips: extremes first, then seeded values
+		vals := extremes(wr)
+		nx := len(vals)
 		for i := 0; i < *nval; i++ {
 			vals = append(vals, wr.genv(rng))
 		}
 		for i, v := range vals {
-			if i < 24 {
+			if i < nx {
 				for _, rv := range wr.rt {
 					x.roundTrip(rv, v)
 				}
 			} else {
 				x.roundTrip(wr.rt[rng.Intn(len(wr.rt))], v)
 			}
+		}
+		if wr.scanner != nil {
+			x.scanAny(rng, *ntok/25+4)
 		}
 		if len(wr.dec) > 0 && wr.kind != "scan" {
 			texts := append([][]byte{}, x.pool...)
